@@ -154,6 +154,7 @@ def run(ctx):
         "open_verdict_observations": r["open_observations"],
         "frames_sent_compressed": r["frames_sent_compressed"],
         "frames_received_compressed": r["frames_received_compressed"],
+        "behaviours_sent_in_one_write_per_connection": r.get("behaviours_sent_in_one_write", 0),
         "forward_checks": fw,
         "environments": r["envs"],
         "mixed_case_names": r["mixed_case_names"],
@@ -172,6 +173,8 @@ def run(ctx):
         raise core.Inconclusive("forward detection saw no forwarded query at all (vacuous)")
     if r["replays"] < n_beh:
         raise core.Inconclusive("only %d of %d behaviours replayed" % (r["replays"], n_beh))
+    if not r.get("behaviours_sent_in_one_write"):
+        raise core.Inconclusive("no behaviour was replayed pipelined")
     if not r["frames_sent_compressed"] or not r["frames_received_compressed"]:
         raise core.Inconclusive("no compressed frame was sent or received (codec switch not exercised)")
     missing = [c for c in REQUIRED_CLASSES if not any(k.startswith(c) for k in r["classes"])]
